@@ -43,9 +43,10 @@ import (
 const idPlayKeepAliveSB = 0x14
 
 type schedule struct {
-	Kind   map[string]string   `json:"kind"`
-	Faults map[string][]string `json:"faults"`
-	Sched  []string            `json:"sched"`
+	Kind      map[string]string   `json:"kind"`
+	Faults    map[string][]string `json:"faults"`
+	CloseFail bool                `json:"closefail"`
+	Sched     []string            `json:"sched"`
 }
 
 type plan struct {
@@ -86,12 +87,21 @@ func (w *lineWriter) Emit(r tracefmt.Rec) {
 	w.f.Write(append(b, '\n'))
 }
 
-type handler struct {
+// core is what all session handlers of one connection share.
+type core struct {
 	tw     *lineWriter
 	mu     sync.Mutex
 	plan   map[int]string
 	count  atomic.Int64
 	thrown map[string]int
+}
+
+// handler is a counting session handler; several of them may be installed on one
+// connection one after the other (teardown is counted per connection).
+type handler struct {
+	*core
+	name        string
+	onActivated func()
 }
 
 func (h *handler) HandlePacket(pc *proto.PacketContext) {
@@ -106,7 +116,7 @@ func (h *handler) HandlePacket(pc *proto.PacketContext) {
 	}
 	h.thrown[kind]++
 	h.mu.Unlock()
-	h.tw.Emit(tracefmt.Rec{"ev": "handled", "n": n, "kind": kind})
+	h.tw.Emit(tracefmt.Rec{"ev": "handled", "n": n, "kind": kind, "h": h.name})
 	h.count.Add(1)
 	switch kind {
 	case "perr":
@@ -121,9 +131,28 @@ func (h *handler) HandlePacket(pc *proto.PacketContext) {
 		panic(e)
 	}
 }
-func (h *handler) Disconnected() { h.tw.Emit(tracefmt.Rec{"ev": "teardown"}) }
-func (h *handler) Activated()    {}
-func (h *handler) Deactivated()  {}
+func (h *handler) Disconnected() { h.tw.Emit(tracefmt.Rec{"ev": "teardown", "h": h.name}) }
+func (h *handler) Activated() {
+	if h.onActivated != nil {
+		h.onActivated()
+	}
+}
+func (h *handler) Deactivated() {}
+
+// faultConn is the connection's net.Conn; its Close closes the pipe and, if failClose
+// is set, reports an error (tls close_notify to a dead peer, a wrapped conn, ...).
+type faultConn struct {
+	net.Conn
+	failClose bool
+}
+
+func (f *faultConn) Close() error {
+	err := f.Conn.Close()
+	if f.failClose {
+		return errors.New("close of the underlying connection failed")
+	}
+	return err
+}
 
 type rig struct {
 	tw      *lineWriter
@@ -135,15 +164,17 @@ type rig struct {
 	injDone chan struct{} // the peer goroutine of readLoop finished
 }
 
-func newRig(tw *lineWriter, st *stats, withHandler bool) *rig {
+func newRig(tw *lineWriter, st *stats, withHandler, failClose bool) *rig {
 	a, b := net.Pipe()
-	conn, loop := netmc.NewMinecraftConn(context.Background(), a, proto.ServerBound,
+	conn, loop := netmc.NewMinecraftConn(context.Background(), &faultConn{Conn: a, failClose: failClose}, proto.ServerBound,
 		20*time.Second, 20*time.Second, -1, nil)
 	conn.SetProtocol(version.Minecraft_1_20_2.Protocol)
 	r := &rig{tw: tw, conn: conn, loop: loop, far: b, rlDone: make(chan struct{}), injDone: make(chan struct{})}
-	r.h = &handler{tw: tw, plan: map[int]string{}, thrown: st.Panics}
+	r.h = &handler{core: &core{tw: tw, plan: map[int]string{}, thrown: st.Panics}, name: "h0"}
 	if withHandler {
 		conn.SetActiveSessionHandler(state.Play, r.h)
+		// a handler for the config registry, reachable with SwitchSessionHandler
+		conn.AddSessionHandler(state.Config, &handler{core: r.h.core, name: "hcfg"})
 	} else {
 		conn.SetState(state.Play)
 	}
@@ -187,6 +218,19 @@ func (r *rig) op(thread, kind string, faults []string, closeBy string) {
 		r.tw.Emit(tracefmt.Rec{"ev": "call", "thread": thread, "op": "write"})
 		err := r.conn.WritePacket(&packet.KeepAlive{RandomID: 9})
 		r.tw.Emit(tracefmt.Rec{"ev": "ret", "thread": thread, "res": resOf(err), "err": errText(err)})
+	case "switch", "switchw", "switchreg":
+		// a second counting handler takes over; with "switchw" its Activated() writes a packet
+		nh := &handler{core: r.h.core, name: "h-" + thread}
+		if kind == "switchw" {
+			nh.onActivated = func() { _ = r.conn.WritePacket(&packet.KeepAlive{RandomID: 11}) }
+		}
+		r.tw.Emit(tracefmt.Rec{"ev": "call", "thread": thread, "op": "switch", "how": kind})
+		if kind == "switchreg" {
+			r.conn.SwitchSessionHandler(state.Config)
+		} else {
+			r.conn.SetActiveSessionHandler(state.Play, nh)
+		}
+		r.tw.Emit(tracefmt.Rec{"ev": "ret", "thread": thread, "res": "ok", "err": ""})
 	case "eof":
 		r.readLoop(thread, faults, closeBy)
 	}
@@ -252,6 +296,7 @@ func (r *rig) readLoop(thread string, faults []string, closeBy string) {
 func (r *rig) finish(loopStarted bool) {
 	r.op("main", "close", nil, "")
 	r.op("main", "write", nil, "")
+	r.op("main", "switch", nil, "") // a handler switch on the closed connection tears nothing down again
 	if loopStarted {
 		select {
 		case <-r.rlDone:
@@ -278,14 +323,19 @@ func sortedKeys(m map[string]string) []string {
 }
 
 func runSchedule(tw *lineWriter, st *stats, n int, s schedule, step time.Duration, rng *rand.Rand) {
-	hasEOF := false
-	for _, k := range s.Kind {
+	hasEOF, hasSwitch, hasFaults := false, false, false
+	for t, k := range s.Kind {
 		hasEOF = hasEOF || k == "eof"
+		hasSwitch = hasSwitch || k == "switch" || k == "switchw"
+		hasFaults = hasFaults || len(s.Faults[t]) > 0
 	}
-	withHandler := hasEOF || rng.Intn(5) != 0
-	tw.Emit(tracefmt.Rec{"ev": "reset", "n": n, "mode": "sched", "handler": withHandler})
-	r := newRig(tw, st, withHandler)
-	c := sched.New(nil, "cc.close.enter", "cc.once")
+	withHandler := hasEOF || hasSwitch || rng.Intn(5) != 0
+	// without injected packets a plain switch may as well go through SwitchSessionHandler
+	// (the config registry; packets of the play registry would no longer be known there)
+	useReg := withHandler && !hasFaults && rng.Intn(3) == 0
+	tw.Emit(tracefmt.Rec{"ev": "reset", "n": n, "mode": "sched", "handler": withHandler, "closefail": s.CloseFail})
+	r := newRig(tw, st, withHandler, s.CloseFail)
+	c := sched.New(nil, "cc.close.enter", "cc.once", "sh.switch.installed")
 	c.Install()
 	if !hasEOF {
 		// a free-running read loop: it ends (and closes) when somebody closes the connection
@@ -295,7 +345,11 @@ func runSchedule(tw *lineWriter, st *stats, n int, s schedule, step time.Duratio
 	for _, t := range sortedKeys(s.Kind) {
 		t := t
 		wg.Add(1)
-		c.Go(t, func() { defer wg.Done(); r.op(t, s.Kind[t], s.Faults[t], "peer") })
+		kind := s.Kind[t]
+		if kind == "switch" && useReg {
+			kind = "switchreg"
+		}
+		c.Go(t, func() { defer wg.Done(); r.op(t, kind, s.Faults[t], "peer") })
 	}
 	res := c.Run(s.Sched, step, 20*time.Second)
 	st.Schedules++
@@ -324,8 +378,10 @@ func runFaults(tw *lineWriter, st *stats, n int, faults []string, rng *rand.Rand
 	if rng.Intn(3) == 0 {
 		closeBy = "close"
 	}
-	tw.Emit(tracefmt.Rec{"ev": "reset", "n": n, "mode": "faults", "handler": true, "faults": strings.Join(faults, ","), "closeby": closeBy})
-	r := newRig(tw, st, true)
+	failClose := rng.Intn(3) == 0
+	tw.Emit(tracefmt.Rec{"ev": "reset", "n": n, "mode": "faults", "handler": true, "faults": strings.Join(faults, ","),
+		"closeby": closeBy, "closefail": failClose})
+	r := newRig(tw, st, true, failClose)
 	c := sched.New(nil) // only records hook arrivals: no thread is registered, nothing blocks
 	c.Install()
 	r.readLoop("rl", faults, closeBy)
@@ -342,9 +398,10 @@ func runFaults(tw *lineWriter, st *stats, n int, faults []string, rng *rand.Rand
 
 // free-running stress: closers of every kind, writers and a panicking read loop at once
 func runStress(tw *lineWriter, st *stats, n int, rng *rand.Rand) {
-	tw.Emit(tracefmt.Rec{"ev": "reset", "n": n, "mode": "stress", "handler": true})
-	r := newRig(tw, st, true)
-	kinds := []string{"close", "unknown", "closewith", "write", "write"}
+	failClose := rng.Intn(3) == 0
+	tw.Emit(tracefmt.Rec{"ev": "reset", "n": n, "mode": "stress", "handler": true, "closefail": failClose})
+	r := newRig(tw, st, true, failClose)
+	kinds := []string{"close", "unknown", "closewith", "write", "write", "switch", "switchw"}
 	panics := []string{"none", "perr", "pstr", "prt", "pnil"}
 	var faults []string
 	for k := rng.Intn(6); k > 0; k-- {
